@@ -106,6 +106,22 @@ def handleExpr (op : String) (args : List Sexp) : Option Sexp :=
       let e ← wfExpr? e
       let o ← optVarsOf? o
       pure (replyE (canonicalize e o))
+  | "canonicalize_twice", [e, o] => do
+      let e ← wfExpr? e
+      let o ← varsOf? o
+      pure (match canon (upgradeOrdering o) e with
+        | .ok c1 => (match canon (upgradeOrdering o) c1 with
+            | .ok c2 => tagged "ok" [exprToSexp c1, exprToSexp c2]
+            | .error err => err.toSexp)
+        | .error err => err.toSexp)
+  | "canonicalize_pair", [a, b, o] => do
+      let a ← wfExpr? a
+      let b ← wfExpr? b
+      let o ← varsOf? o
+      pure (match canon (upgradeOrdering o) a, canon (upgradeOrdering o) b with
+        | .ok ca, .ok cb => tagged "ok" [exprToSexp ca, exprToSexp cb]
+        | .error err, _ => err.toSexp
+        | _, .error err => err.toSexp)
   | "canonical_equal", [a, b] => do pure (replyB (canonicalExprEqual (← wfExpr? a) (← wfExpr? b)))
   | "mul", [a, b] => do pure (replyE ((← wfExpr? a).mul (← wfExpr? b)))
   | "div", [a, b] => do pure (replyE ((← wfExpr? a).div (← wfExpr? b)))
